@@ -4,7 +4,7 @@ CONSTANTS
   MinWords = 0
   MaxWords = 4
   Must = {}
-  OptSet <- OptsAll
+  OptSet <- OptsCS
   PathAlpha <- PathAlphaDef
   PathLen = 5
   StratLen = 0
@@ -16,4 +16,3 @@ CONSTANTS
   RandCount = 2
   SelfLen = 0
 INVARIANTS Emit EmitHdr
-VIEW View
